@@ -398,6 +398,9 @@ impl Check for C10 {
                 let moved = expect.iter().enumerate().filter(|(p, (i, _))| *p as u32 != *i).count();
                 ctx.probe_n("messages_reordered_by_sort", moved as u64);
                 ctx.probe("order_runs");
+                if min_delay > 1_000_000_000 {
+                    ctx.probe("order_runs_with_minimum_delay_above_1000s");
+                }
                 for g in got.iter().take(50) {
                     ctx.event_u64(*g as u64);
                 }
@@ -444,6 +447,6 @@ impl Check for C10 {
         vec!["world model / order-case generator", "producer and consumer of the stage"]
     }
     fn required_reach() -> Vec<&'static str> {
-        vec!["messages_reordered_by_sort", "order_runs", "permutation_runs"]
+        vec!["messages_reordered_by_sort", "order_runs", "order_runs_with_minimum_delay_above_1000s", "permutation_runs"]
     }
 }
